@@ -646,21 +646,32 @@ func (t *treeRun) monitorChecks() {
 		if h.Overflow || h.OverflowSeen || t.closedByScenario(n) || n.WasFull {
 			continue
 		}
-		m := world.NewMirror(n.Name(), n.MonLog[0].Objs) // overlap-tolerant: events queued before OnInitialize's List() are legitimately repeated
+		var types []string
+		var objs []world.Spec
 		for _, c := range n.MonLog[1:] {
-			if len(c.Objs) != 1 {
-				continue
-			}
-			if msg := m.Apply(c.Kind, c.Objs[0]); msg != "" {
-				detsim.Fail("monitor-callbacks-malformed", "%s: %s", n.Name(), msg)
+			if len(c.Objs) == 1 {
+				types = append(types, c.Kind)
+				objs = append(objs, c.Objs[0])
 			}
 		}
 		if got, _, ok := world.ListIDs(h.CacheOf(n.Parent)); ok {
-			if mm := world.SpecIDs(m.List()); !world.SameIDs(mm, got) {
-				detsim.Fail("monitor-diverged", "%s: OnInitialize list plus callbacks do not reproduce the publisher cache\n  replay: %v\n  cache : %v\n  calls : %d", n.Name(), mm, got, len(n.MonLog))
+			// callbacks for events queued before OnInitialize's List() are
+			// legitimately repeated: some prefix is already reflected in the list
+			if ok2, why := world.ReplayWithUnknownOverlap(n.Name(), n.MonLog[0].Objs, types, objs, got); !ok2 {
+				detsim.Fail("monitor-diverged", "%s: OnInitialize list plus callbacks do not reproduce the publisher cache for any alignment (%s)\n  init  : %v\n  calls : %v\n  cache : %v", n.Name(), why, world.SpecIDs(n.MonLog[0].Objs), callSigsTree(n.MonLog[1:]), got)
 			}
 		}
 	}
+}
+
+func callSigsTree(calls []world.MonCall) []string {
+	var out []string
+	for _, c := range calls {
+		if len(c.Objs) == 1 {
+			out = append(out, c.Kind+" "+c.Objs[0].Key()+"@"+c.Objs[0].RV)
+		}
+	}
+	return out
 }
 
 func describeTree(sci interface{}) string {
